@@ -18,7 +18,7 @@ ASSUMPTIONS = [
     "1e-4 relative (+1e-6*|mean| absolute for std, since the library accumulates in float32)",
     "warm-up schedule checked for epoch callbacks in order (0,1,2,...) incl. repeated callbacks and epochs beyond n_epochs",
 ]
-REQUIRED_COUNTERS = ["scaler_calls", "scaler_outputs_checked", "ema_calls", "warmup_calls", "warmup_epoch_callbacks", "ema_exact_zero_followups"]
+REQUIRED_COUNTERS = ["warmup_fit_runs", "scaler_calls", "scaler_outputs_checked", "ema_calls", "warmup_calls", "warmup_epoch_callbacks", "ema_exact_zero_followups"]
 MIN_NONTRIVIAL = {"quick": 100, "thorough": 1000}
 WORKERS = {"quick": 8, "thorough": 16}
 BUDGET_S = {"quick": 300, "thorough": 1500}
@@ -36,6 +36,14 @@ def cases(tier, seed):
                         mag=rnd.choice([1e-3, 1e-1, 1.0, 30.0, 1e4]), off=rnd.choice([0.0, 0.0, 1.0, -10.0, 50.0]),
                         steps=rnd.choice([5, 20, 60]) if i % 10 else (300 if tier == "quick" else 1000),
                         const=rnd.random() < 0.15, s=rnd.randrange(10**6)))
+    for (n_, E_) in ((1, 1), (2, 2), (3, 2), (2, 3), (4, 3)):
+        for r in range(1 if tier == "quick" else 3):
+            out.append(dict(kind="fit_alpha", n_epochs=n_, max_epochs=E_, s=rnd.randrange(10**6)))
+    # double-precision inputs whose offset is large against their spread (offset / spread up to 2.5e4): exact enough in float64,
+    # garbage if the statistics are accumulated in single precision on the way
+    for i in range(max(8, n // 5)):
+        out.append(dict(kind="scaler", scale=["norm", "scale"][i % 2], mag=rnd.choice([4.0, 0.05, 1.0]), off=rnd.choice([1e5, 1e3, -2e4]), f64=True,
+                        steps=rnd.choice([5, 20, 60]), const=False, s=rnd.randrange(10**6)))
     for i in range(n):
         out.append(dict(kind="ema", beta=rnd.choice([0.0, 0.5, 0.8, 0.9, 0.99, 1.0]), via=rnd.choice(["cls", "registry", "mean"]),
                         mag=rnd.choice([1e-2, 1.0, 100.0]), steps=rnd.choice([3, 10, 50]), s=rnd.randrange(10**6)))
@@ -82,6 +90,8 @@ def run_case(ctx, case):
         sizes = set()
         for t in range(case["steps"]):
             x = draw(case["mag"], case["off"], case["const"] and t % 3 != 2)
+            if case.get("f64"):
+                x = x.double()  # double-precision advantages (float64 training runs): the statistics then have float64 inputs
             x_in = x.clone()
             sizes.add(x.numel())
             out = sc(x)
@@ -122,7 +132,7 @@ def run_case(ctx, case):
             # float32 conditioning of the (exact in real arithmetic) batched Welford update: the error of the
             # variance is ~ eps32 * max|x|^2, hence of the std ~ eps32*max|x|^2/std. Beyond that -> violation.
             mmax = max(abs(v) for v in allv)
-            eps32 = 2.0**-23
+            eps32 = 2.0**-23 if not case.get("f64") else 2.0**-44  # float64 accumulation, float32 only in the final cast of the std
             # |std_lib - std| <= sqrt(std^2 + dv) - std with dv = 16*eps32*max|x|^2 (covers std == 0: sqrt(dv))
             tol_abs = (math.sqrt(std * std + 16 * eps32 * mmax * mmax) - std) if std == std else float("inf")
             if not close(lm, mean, 1e-4, 1e-5 * (std if std == std else 1.0) + 1e-6 * max(abs(mean), 1e-30)):
@@ -194,6 +204,55 @@ def run_case(ctx, case):
         if len(sizes) >= 3:
             ctx.nontrivial_case(case)
 
+    elif kind == "fit_alpha":
+        # the warm-up weight as the TRAINING LOOP drives it (REINFORCE.on_train_epoch_end -> baseline.epoch_callback): during epoch e
+        # the weight is min(1, e / n), and after a run of E epochs the baseline holds min(1, E / n) (what a checkpoint / resume sees)
+        import os
+        import shutil
+        import tempfile
+
+        import rl4co.models as M
+        from rl4co.envs import TSPEnv
+        from rl4co.utils.trainer import RL4COTrainer
+
+        torch.set_float32_matmul_precision("highest")
+        env = TSPEnv(generator_params=dict(num_loc=6))
+        torch.manual_seed(case["s"])
+        pol = M.AttentionModelPolicy(env_name="tsp", embed_dim=32, num_encoder_layers=1, num_heads=2)
+        n_, E_ = case["n_epochs"], case["max_epochs"]
+        model = M.REINFORCE(env, pol, baseline="rollout", baseline_kwargs=dict(n_epochs=n_), batch_size=4, train_data_size=8, val_data_size=4, test_data_size=4)
+        seen = []
+        o_start = model.on_train_epoch_start
+
+        def on_start():
+            seen.append((int(model.current_epoch), float(model.baseline.alpha)))
+            return o_start()
+
+        model.on_train_epoch_start = on_start
+        d = tempfile.mkdtemp(prefix="verif-c20-")
+        cwd = os.getcwd()
+        try:
+            os.chdir(d)
+            tr = RL4COTrainer(matmul_precision="highest", max_epochs=E_, accelerator="cpu", devices=1, logger=False, enable_checkpointing=False, enable_progress_bar=False, enable_model_summary=False,
+                              precision="32-true", default_root_dir=d, num_sanity_val_steps=0)
+            tr.fit(model)
+        finally:
+            os.chdir(cwd)
+            shutil.rmtree(d, ignore_errors=True)
+            torch.set_float32_matmul_precision("highest")
+        ctx.count("warmup_fit_runs")
+        sig = dict(kind="fit_alpha")
+        for e, a in seen:
+            ctx.evaluation()
+            ctx.count("warmup_calls")
+            if not close(a, min(1.0, e / n_), 1e-9, 1e-12):
+                ctx.violation(dict(sig, q="alpha_during_epoch"), f"warm-up weight during epoch {e} is {a}, expected min(1, {e}/{n_})", dict(n_epochs=n_, max_epochs=E_))
+                return
+        ctx.evaluation()
+        if not close(float(model.baseline.alpha), min(1.0, E_ / n_), 1e-9, 1e-12):
+            ctx.violation(dict(sig, q="alpha_after_fit"), f"after {E_} epochs the baseline holds warm-up weight {float(model.baseline.alpha)}, expected min(1, {E_}/{n_}) (the last epoch's callback)", dict(n_epochs=n_, max_epochs=E_))
+            return
+        ctx.nontrivial_case(case)
     elif kind == "warmup":
         from rl4co.models.rl.reinforce import baselines as BL
 
